@@ -138,6 +138,8 @@ def biweight_location(
 
     if M is None:
         M = median_func(data, axis=axis)
+    # a user-supplied M may be a Python scalar (no squeeze method)
+    M = np.asanyarray(M)
     if axis is not None:
         M = np.expand_dims(M, axis=axis)
 
